@@ -38,6 +38,8 @@ type scenario struct {
 	Map  string              `json:"map"`  // sess | subs | ret
 	Keys map[string][]string `json:"keys"` // generic key -> concrete: sess [id] ; subs [session, filter] ; ret [topic]
 	Ops  []op                `json:"ops"`
+	// AuditDown: the nodes' audit sink is unreachable for the whole scenario (every RecordEvent fails)
+	AuditDown bool `json:"auditdown"`
 }
 type entry struct {
 	K   string `json:"k"`
@@ -66,7 +68,12 @@ func (w *world) node(n int) *dstate.Node {
 	if x, ok := w.nodes[n]; ok {
 		return x
 	}
-	x := dstate.New(uint64(n))
+	var x *dstate.Node
+	if w.s.AuditDown {
+		x = dstate.NewWithAudit(uint64(n), dstate.DownAudit())
+	} else {
+		x = dstate.New(uint64(n))
+	}
 	w.nodes[n] = x
 	return x
 }
